@@ -14,6 +14,25 @@ CLAIMED = {
             'DESIGN.md §3 C06'),
 }
 
+FAMILY_NOTE = ('Trusted: z3, dd node accessors, the argument that a rigid-table family run is pointwise the run of '
+               'each member (DESIGN.md 2.4), the explicit unrolled reference (validated on every run against an '
+               'independent Zielonka parity / reachability / safety solver on seeded concrete games). Bounds: families '
+               'of 2-3 state bits, 1-2 goals/holds, unrolling |states|+2.')
+CLAIMED.update({
+    'C01': ('model_checking',
+            'one real run of gr1.solve_streett_game on a rigid-table game family; z3 equivalence of the exported winning-region BDD with an unrolled explicit-state mu-calculus reference, for all games of the family and all states; counterexample members replayed against a Zielonka solver',
+            'Bounded solver check over whole families of games (2^20..2^44 games per run): truth tables of both actions and of the liveness predicates are rigid constants, so the BDD returned by the real solver is a function of (state, game); z3 shows it equal to the reference at every explicit state, in all four modes, on dd.cudd and dd.autoref.',
+            FAMILY_NOTE, 'DESIGN.md §3 C01'),
+    'C04': ('model_checking',
+            'as C01 for gr1.solve_rabin_game; plus oracle-free duality: z3 shows the exported Streett region of a game family and the exported Rabin region of the dual family (solved in a separate BDD manager) complementary for all games and states; trivial_winning_set against composed references',
+            'Bounded solver check over game families: Rabin(1) region vs unrolled reference; Streett/Rabin determinacy decided by the solver on two independent exports; all four modes.',
+            FAMILY_NOTE, 'DESIGN.md §3 C04'),
+    'C11': ('model_checking',
+            'one real run of fixpoint.step/attractor/trap/ee_image/descendants per (family, mode) with table-defined actions and predicates; z3 equivalence of the exported result with an explicit-state reference for all members and states; closure facts of descendants as direct queries',
+            'Bounded solver check over families of relations and predicates (all actions over the listed bits, including ones reading the opponent\'s primed variables; Boolean and small signed/negative integer variables over their whole bit range).',
+            FAMILY_NOTE + ' attractor(inside=) is claimed for targets within `inside`.', 'DESIGN.md §3 C11'),
+})
+
 NOT_APPLICABLE = {
     'C16': 'Parser/precedence/round-trip: PLY regex lexer + table-driven LALR driver over token sequences; no arithmetic or bit-level state for a solver to range over. CrossHair on lexyacc.Parser.parse with symbolic strings (len <= 3) answers "Unable to meet precondition" after 90 s. See DESIGN.md §5.',
 }
